@@ -296,13 +296,13 @@ def centroid (l : Loop α) : Res (V3 α) :=
   let z := l.vertices.foldl (fun acc v => acc + v.z) (0 : α)
   .ok ⟨x / n, y / n, z / n⟩
 
-/-- the `for v in self.vertices.iter() { new.push(*v).unwrap() }` loop of `sanitize` -/
+/-- the `for v in self.vertices.iter() { new.push(*v)? }` loop of `sanitize` -/
 def sanitizePush : List (V3 α) → Loop α → Res (Loop α)
   | [], new => .ok new
   | v :: rest, new =>
     match new.push v with
     | (new', .ok ()) => sanitizePush rest new'
-    | (_, .err _) => .panic "loop3d.rs:sanitize:push.unwrap"
+    | (_, .err e) => .err e
     | (_, .panic p) => .panic p
 
 /-- `sanitize` -/
